@@ -49,7 +49,7 @@ fn child_doc(tag: &str, c: &ChildOpts) -> String {
     s
 }
 
-fn parent_doc(kid: &ChildOpts, second: Option<&ChildOpts>, autoforward: bool) -> String {
+fn parent_doc(kid: &ChildOpts, second: Option<&ChildOpts>, autoforward: bool, outer_bad: bool) -> String {
     let mut s = String::new();
     s.push_str("<scxml xmlns=\"http://www.w3.org/2005/07/scxml\" version=\"1.0\" datamodel=\"rfsm-expression\" name=\"par\" initial=\"idle\">\n");
     s.push_str(" <datamodel><data id=\"a\" expr=\"11\"/><data id=\"b\" expr=\"22\"/><data id=\"iid\" expr=\"'none'\"/></datamodel>\n");
@@ -58,6 +58,11 @@ fn parent_doc(kid: &ChildOpts, second: Option<&ChildOpts>, autoforward: bool) ->
     s.push_str("  <transition event=\"done.invoke\"><script>mark('late-done', _event.name, _event.invokeid)</script></transition>\n");
     s.push_str("  <transition event=\"ping\"><script>mark('pong')</script></transition>\n </state>\n");
     s.push_str(&format!(" <state id=\"flash\">\n  <invoke id=\"fl\"><content>{}</content></invoke>\n  <transition target=\"idle\"/>\n </state>\n", child_doc("fl", &ChildOpts { msgs: 1, delayed_ms: None, finish: 2 })));
+    if outer_bad {
+        // 'work' lies in a state that is entered together with it and whose own invoke cannot be started (its
+        // namelist names a missing location): the error it raises must not keep the invokes of 'work' from starting
+        s.push_str(" <state id=\"outer\">\n  <invoke id=\"bad\" namelist=\"nosuchlocation\"><content><scxml xmlns=\"http://www.w3.org/2005/07/scxml\" version=\"1.0\" datamodel=\"null\" initial=\"k\"><final id=\"k\"/></scxml></content></invoke>\n");
+    }
     s.push_str(" <state id=\"work\">\n");
     s.push_str(&format!(
         "  <invoke id=\"kid\" autoforward=\"{}\" namelist=\"a\"><param name=\"b\" expr=\"b + 1\"/><param name=\"zz\" expr=\"99\"/><content>{}</content><finalize><script>mark('fin', 'kid', _event.name)</script></finalize></invoke>\n",
@@ -73,7 +78,11 @@ fn parent_doc(kid: &ChildOpts, second: Option<&ChildOpts>, autoforward: bool) ->
     s.push_str("  <transition event=\"fin\"><send target=\"#_kid\" event=\"finish\"/></transition>\n");
     s.push_str("  <transition event=\"back\" target=\"idle\"/>\n");
     s.push_str("  <transition event=\"hostev\"><script>mark('host', _event.name)</script></transition>\n");
-    s.push_str("  <transition event=\"ping\"><script>mark('pong')</script></transition>\n </state>\n</scxml>\n");
+    s.push_str("  <transition event=\"ping\"><script>mark('pong')</script></transition>\n </state>\n");
+    if outer_bad {
+        s.push_str(" </state>\n");
+    }
+    s.push_str("</scxml>\n");
     s
 }
 
@@ -111,7 +120,8 @@ impl Property for C14Prop {
         let kid = mk(rng);
         let second = if rng.chance(1, 3) { Some(mk(rng)) } else { None };
         let autoforward = rng.chance(1, 2);
-        let xml = parent_doc(&kid, second.as_ref(), autoforward);
+        let outer_bad = rng.chance(1, 3);
+        let xml = parent_doc(&kid, second.as_ref(), autoforward, outer_bad);
         let mut script = Vec::new();
         let jitter = rng.chance(1, 2);
         if jitter {
